@@ -587,3 +587,11 @@ RULE_ADDENDA_3 = {
 }
 for _k, _t in RULE_ADDENDA_3.items():
     PROPS[_k]["rule"] += " " + _t
+
+
+PROPS["C04"]["technique"] += "; the simulator also records TLS-layer state (session resumption) per connection"
+PROPS["C04"]["level_text"] += " No connection may resume an earlier TLS session, nothing may be dialled for a port outside 0..65535 (trap listener on :443), and a redirect to a non-https address is not followed."
+PROPS["C19"]["level_text"] += " The values in force of an accepted configuration (printed by the probe) must be usable: timeout and preload amount not negative, cache size positive, hook not empty."
+PROPS["C20"]["level_text"] += " For links in running text and for attachments the expected media type and address are derived from the JSON the world served, not read back from servitor's accessors."
+PROPS["C08"]["level_text"] += " At quiescence every thread page of the browser history is compared, position by position, with the reference views of its own opened item."
+PROPS["C02"]["level_text"] += " Every actor displayed with an identifier must be served under that id by the identifier's home."
